@@ -94,19 +94,30 @@ def fn_invocations(item):
 
 def trait_invocations():
     inv = []
-    opts = ["mock_api = TMock", "unimock", "mockall", "?Send", "delegate_by = ref"]
-    for lead in ("", "TImpl"):
-        for k in range(0, len(opts) + 1):
-            for sel in itertools.permutations(opts, k):
-                if lead and "delegate_by = ref" not in sel:
-                    continue  # a delegation target needs delegate_by (C15's business)
-                um = True if "unimock" in sel else None
-                for variant, feature in (("entrait", False), ("entrait", True)):
-                    u = um if um is not None else feature
-                    key = ("lead", lead, "um", u, "ma", "mockall" in sel, "api", "mock_api = TMock" in sel,
-                           "send", "?Send" not in sel, "dg", "delegate_by = ref" in sel)
-                    inv.append(dict(attr=", ".join(([lead] if lead else []) + list(sel)), variant=variant, feature=feature,
-                                    key=key, family="orders"))
+    # the delegation option in its three spellings of interest: `= ref`, the documented default written out (`= Self`, which
+    # the option table equates with omitting it) and the bare word (accepted by the parser; no documented meaning, so it
+    # only has to be order-independent: it gets a key component of its own)
+    base_opts = ["mock_api = TMock", "unimock", "mockall", "?Send"]
+    seen = set()
+    for dgopt in ("delegate_by = ref", "delegate_by = Self", "delegate_by"):
+        opts = base_opts + [dgopt]
+        for lead in ("", "TImpl"):
+            for k in range(0, len(opts) + 1):
+                for sel in itertools.permutations(opts, k):
+                    if lead and "delegate_by = ref" not in sel:
+                        continue  # a delegation target needs delegate_by (C15's business)
+                    if (lead, sel) in seen:
+                        continue
+                    seen.add((lead, sel))
+                    um = True if "unimock" in sel else None
+                    for variant, feature in (("entrait", False), ("entrait", True)):
+                        u = um if um is not None else feature
+                        key = ("lead", lead, "um", u, "ma", "mockall" in sel, "api", "mock_api = TMock" in sel,
+                               "send", "?Send" not in sel, "dg", "delegate_by = ref" in sel)
+                        if "delegate_by" in sel:
+                            key += ("dgbare",)
+                        inv.append(dict(attr=", ".join(([lead] if lead else []) + list(sel)), variant=variant, feature=feature,
+                                        key=key, family="orders", undocumented="delegate_by" in sel))
     for dbg in ("debug", "debug = true", "debug = false"):
         for sel in ([], ["delegate_by = ref"], ["mock_api = TMock", "mockall"]):
             for pos in range(len(sel) + 1):
@@ -262,9 +273,11 @@ def evaluate(states, report, tier):
             rep = rep_of[(s["item"], s["key_sem"])]
             rrec = outputs[rep["key"]]
             observed = "class:%s:%d" % (s["item"], hash(engine.tt_strict(rec["output_tt"])) & 0xffffffff)
-            if is_rejection(rec) and s["item"] != "fn0":
+            # (bare `delegate_by` has no documented meaning: a tree may reject it, but then in every position)
+            lenient = s["item"] == "fn0" or s.get("undocumented")
+            if is_rejection(rec) and not lenient:
                 problems.append(("valid-options-rejected", rec["output"][:200]))
-            elif s["item"] == "fn0" and rrec is not None and is_rejection(rec) != is_rejection(rrec):
+            elif lenient and rrec is not None and is_rejection(rec) != is_rejection(rrec):
                 problems.append(("accepted-vs-rejected-within-equivalent-options", "#[%s(%s)] %s, the equivalent #[%s(%s)] %s"
                                  % (s["variant"], s["attr"], "rejected" if is_rejection(rec) else "accepted", rep["variant"], rep["attr"],
                                     "rejected" if is_rejection(rrec) else "accepted")))
